@@ -380,6 +380,7 @@ def register(M):
                     codes.add(('i8', None))
                 else:
                     codes.add(('f8', None))
+        datelike = all(c == 'M8' for c, _ in codes) and (bool(codes) or has_none)
         if has_none:
             dt, unit = 'O', None
         elif not codes:
@@ -390,7 +391,9 @@ def register(M):
             dt, unit = 'f8', None
         else:
             dt, unit = 'O', None
-        return Vec.fresh(els, kind='nd', dtype=dt, unit=unit)
+        res = Vec.fresh(els, kind='nd', dtype=dt, unit=unit)
+        res.datelike = datelike
+        return res
 
     def to_array(interp, v, node, copy=True):
         """np.array(v): fresh ndarray.  Library fact (row 2): a MaskedArray argument loses its mask."""
@@ -471,7 +474,8 @@ def register(M):
                 if src == 'M8':
                     pass
                 elif src == 'O' and getattr(v, 'datelike', False):
-                    pass
+                    if d == NONE_EL:
+                        d = X.NAN      # NaT
                 else:
                     raise AnalysisError(f'astype datetime64 from {src} not modelled', node)
             elif code == 'O':
